@@ -195,16 +195,18 @@ def query : P (Query Nat Nat (Nat × Nat)) := do
   | _ => failure
 
 def evTok (e : Cnd × Option (List (CS Nat Nat))) : String :=
-  s!"{e.1.kind}{if e.2.isSome then "g" else "n"}{if e.1.ge then 1 else 0}"
+  s!"{e.1.kind}{if e.2.isSome then "g" else "n"}{if e.1.ge then 1 else 0}p{e.1.ph}"
 
-/-- cs.run gOffsetFix dens0 tab queries → per query
-    `events… ; used sampled resultNone ; df matrix points(tag or -) diff curv` (slots of prec 1 / phase 0) -/
+/-- cs.run gOffsetFix dens0 nph tab queries → per query
+    `events… ; used sampled resultNone ; df[phase…] matrix points[phase…] diff[phase…] curv[phase…]`
+    (every cache slot of every phase index 0..nph-1, so that a write under a wrong phase key shows) -/
 def csRun : P String := do
-  let gfix ← bool; let d0 ← nat
+  let gfix ← bool; let d0 ← nat; let nph ← nat
   let tab ← lst outc
   let qs ← lst query
   let E := toy tab
   let cfg : Cfg := ⟨gfix⟩
+  let phs := List.range nph
   let rec go (s : St Nat Cnd Nat Nat Nat (Nat × Nat) Nat) (qs : List (Query Nat Nat (Nat × Nat))) (acc : List String) : List String :=
     match qs with
     | [] => acc.reverse
@@ -216,9 +218,10 @@ def csRun : P String := do
         | .df none => 1
         | .curv none => 1
         | _ => 0
-      let pts := match s'.points 1 with | some (tag, _) => toString tag | none => "-"
+      let bits (f : Nat → Bool) : String := String.join (phs.map (fun p => bstr (f p)))
+      let pts := ",".intercalate (phs.map (fun p => match s'.points p with | some (tag, _) => toString tag | none => "-"))
       let line := " ".intercalate evs ++ s!" ; {s'.used.length - s.used.length} {s'.sampled.length - s.sampled.length} {rnone} ; " ++
-        s!"{bstr (s'.dfCache 1).isSome} {bstr s'.matrixCs.isSome} {pts} {bstr (s'.diffCache 0).isSome} {bstr (s'.curvCache 1).isSome}"
+        s!"{bits (fun p => (s'.dfCache p).isSome)} {bstr s'.matrixCs.isSome} {pts} {bits (fun p => (s'.diffCache p).isSome)} {bits (fun p => (s'.curvCache p).isSome)}"
       go s' r (line :: acc)
   pure (" / ".intercalate (go (fresh d0) qs []))
 
